@@ -929,7 +929,7 @@ def _mk_params(spec):
         if kind == 1:
             v = B(v)
         elif kind == 2:
-            v = bool(v)
+            v = None if v is None else bool(v)
         elif kind == 3:
             v = packet.QuicPreferredAddress(
                 ipv4_address=tuple(v["v4"]) if v["v4"] else None, ipv6_address=tuple(v["v6"]) if v["v6"] else None,
@@ -940,10 +940,31 @@ def _mk_params(spec):
     return packet.QuicTransportParameters(**kw)
 
 
+def _rec_tokens(params):
+    """the dataclass attribute by attribute (dataclass order), 0 | 1 payload -- model/TParams.v out_qtp / tk_qtp"""
+    import dataclasses
+    kinds = {name: kind for pid, name, kind in _params_table()}
+    out = []
+    for f in dataclasses.fields(params):
+        v = getattr(params, f.name)
+        kind = kinds[f.name]
+        if v is None:
+            out += [0]
+        elif kind == 2:
+            out += [1, 1 if v else 0]
+        else:
+            out += [1] + _pval_tokens(kind, v)[1:]
+    return out
+
+
 def tp_encode(case):
     op = case["op"]
     if op[0] == "pull":
         return [0] + lp(B(op[1]))
+    if op[0] == "pullrec":
+        return [2] + lp(B(op[1]))
+    if op[0] == "pushrec":
+        return [3, op[1]] + _rec_tokens(_mk_params(op[2]))
     params = _mk_params(op[2])
     ents = []
     n = 0
@@ -964,6 +985,9 @@ def tp_impl(case):
         if op[0] == "pull":
             b = Buffer(data=B(op[1]))
             return [0] + _params_dump(packet.pull_quic_transport_parameters(b))
+        if op[0] == "pullrec":
+            b = Buffer(data=B(op[1]))
+            return [0] + _rec_tokens(packet.pull_quic_transport_parameters(b))
         b = Buffer(capacity=op[1])
         packet.push_quic_transport_parameters(b, _mk_params(op[2]))
         return [0] + lp(b.data)
@@ -996,13 +1020,18 @@ def rfc_tparams(params):
 
 
 def tp_in_domain(params):
+    """the domain of tparams_roundtrip (TParamsRoundtrip.qtp_wf), written independently"""
+    if params.disable_active_migration is None:
+        return False             # Optional[bool]: None is sent like False and read back as False
     for pid, name, kind in _params_table():
         v = getattr(params, name)
         if v is None or v is False:
             continue
         if kind == 0 and not 0 <= v < U62:
             return False
-        if kind == 1 and len(v) > 60000:
+        if kind == 1 and len(v) > 65536:
+            return False
+        if kind == 4 and len(v.available_versions) > 16383:
             return False
         if kind == 3:
             if len(v.connection_id) > 255 or len(v.stateless_reset_token) != 16:
@@ -1049,13 +1078,29 @@ def rfc_tparams_strict(data):
     return True
 
 
+import collections
+TP_BOUNDARY = collections.Counter()
+
+
 def tp_oracle(case):
     from aioquic.buffer import Buffer
     from aioquic.quic import packet
     op = case["op"]
-    if op[0] == "push":
+    if op[0] in ("push", "pushrec"):
         params = _mk_params(op[2])
         if not tp_in_domain(params):
+            # outside qtp_wf: record what the implementation does (encodes, then decodes differently / raises)
+            try:
+                b = Buffer(capacity=op[1])
+                packet.push_quic_transport_parameters(b, params)
+                try:
+                    back = packet.pull_quic_transport_parameters(Buffer(data=b.data))
+                    if back != params:
+                        TP_BOUNDARY["encodes_decodes_differently"] += 1
+                except ValueError:
+                    TP_BOUNDARY["encodes_decode_raises_ValueError"] += 1
+            except Exception:
+                TP_BOUNDARY["encode_raises"] += 1
             return None
         ref = rfc_tparams(params)
         b = Buffer(capacity=op[1])
@@ -1142,6 +1187,20 @@ def tp_gen(rng, n, thorough):
         else:
             data = rbytes(rng, rng.randint(0, 30))
         cases.append({"s": "tparams", "op": ["pull", H(data)]})
+    # the dataclass view (model/TParams.v qtp): the same pushes / pulls attribute by attribute
+    for c in list(cases):
+        if rng.random() < 0.4:
+            op = c["op"]
+            cases.append({"s": "tparams", "op": ["pushrec"] + op[1:]} if op[0] == "push" else {"s": "tparams", "op": ["pullrec", op[1]]})
+    # boundary of the round-trip domain (tparams_roundtrip_*_refuted, tparams_encode_ok_decode_error)
+    pa = {"v4": ["0.0.0.0", 443], "v6": None, "cid": "01020304", "tok": "05" * 16}
+    for spec in ({"preferred_address": pa}, {"max_idle_timeout": 30000, "disable_active_migration": None},
+                 {"preferred_address": {"v4": None, "v6": ["::", 1], "cid": "", "tok": "00" * 16}},
+                 {"preferred_address": {"v4": None, "v6": None, "cid": "01" * 256, "tok": "02" * 16}},
+                 {"original_destination_connection_id": "00" * 65536}, {"quantum_readiness": "ab" * 65536},
+                 {"version_information": {"chosen": 1, "avail": [2] * 16383}}, {"version_information": {"chosen": 1, "avail": [2] * 16384}}):
+        cases.append({"s": "tparams", "op": ["pushrec", 200000, spec]})
+        cases.append({"s": "tparams", "op": ["push", 200000, spec]})
     return cases
 
 
@@ -1561,6 +1620,7 @@ def run(ctx):
         "exhaustive_small_scope": "all non-empty range sets over a universe of %d packet numbers x 10 offsets; every varint first byte; "
                                   "all CID lengths 0..21,255 x long types x both versions" % (8 if ctx.thorough else 6),
         "f12_out_of_domain_pushes_observed": dict(F12_SEEN),
+        "tparams_outside_roundtrip_domain_observed": dict(TP_BOUNDARY),
     })
     return corr.merge_coverage(
         list(suites.values()),
